@@ -204,6 +204,11 @@ func GenBuild(r *Rng, o PairOpts) *Build {
 	if o.Symlinks {
 		add(BEntry{Path: "top/link-to-mid", Kind: 'l', Dest: "mid"})
 		add(BEntry{Path: "dangling", Kind: 'l', Dest: "nowhere"})
+		// destinations that are not in canonical form are stored and compared verbatim
+		add(BEntry{Path: "link-dot-slash", Kind: 'l', Dest: "./zero.bin"})
+		add(BEntry{Path: "link-trailing-slash", Kind: 'l', Dest: "top/"})
+		add(BEntry{Path: "top/link-double-slash", Kind: 'l', Dest: "mid//other.bin"})
+		add(BEntry{Path: "top/link-dotdot", Kind: 'l', Dest: "mid/../mid/other.bin"})
 	}
 	nw.Normalize()
 	return nw
